@@ -105,6 +105,15 @@ pub fn classify(t: &str, q: &QOpt) -> Expect {
         "\"a\\u00e9\"" => return if q.string == Syn::Elisp { Expect::Value(MV::Str("aé".into())) } else { Expect::Unspecified },
         ".5" | "-.5" | "+.5" => return Expect::Unspecified,
         "-1+" | "+1x" | "-1a" | "+5." => return Expect::NotNumber,
+        // radix prefixes: the digits have to be digits of that radix
+        "#x10" => return Expect::Value(MV::U(16)),
+        "#xFf" => return Expect::Value(MV::U(255)),
+        "#x-ff" => return Expect::Value(MV::I(-255)),
+        "#b101" => return Expect::Value(MV::U(5)),
+        "#o17" => return Expect::Value(MV::U(15)),
+        "#d10" => return Expect::Value(MV::U(10)),
+        "#b11111111111111111111111111111111111111111111111111111111111111111111112" | "#o7777777777777777777777777777778" | "#xffffffffffffffffffffg" => return Expect::NotNumber,
+        "#b2" | "#b102" | "#b12" | "#o8" | "#o18" | "#o79" | "#xg" | "#x1g" | "#xfg" | "#d1a" | "#da" | "#b" | "#x-" | "#b1.0" | "#o1e2" => return Expect::NotNumber,
         _ => {}
     }
     // Emacs characters
@@ -336,6 +345,7 @@ pub fn check_case(c: &Case) -> Vec<CaseResult> {
     let mut out: Vec<CaseResult> = Vec::new();
     let mut groups: std::collections::BTreeMap<Proj, (usize, Result<MV, String>)> = std::collections::BTreeMap::new();
     let cls = token_class(&c.token);
+    let mut by_index: Vec<Option<Result<MV, String>>> = vec![None; N_QOPT];
     for qi in 0..N_QOPT {
         let q = QOpt::from_index(qi);
         let case = || json!({"case": c, "q": qi});
@@ -347,6 +357,7 @@ pub fn check_case(c: &Case) -> Vec<CaseResult> {
             Ok(Ok(v)) => Ok(MV::from_value(&v)),
             Ok(Err(e)) => Err(e.to_string()),
         };
+        by_index[qi] = Some(got.clone());
         // (1)/(2) classification in context
         let tok_expect = classify(&c.token, &q);
         let expect = expected_in_context(&tok_expect, c.position, &q);
@@ -422,6 +433,48 @@ pub fn check_case(c: &Case) -> Vec<CaseResult> {
             }
         }
     }
+    // (4) the library's own constructors are the option sets their
+    // documentation describes (every check builds its option sets field by
+    // field, so a wrong default would otherwise go unnoticed)
+    let none = QOpt { kw_octo: false, ..QOpt::default_set() };
+    let ctors: [(&str, lexpr::parse::Options, usize); 3] = [
+        ("Options::default()", lexpr::parse::Options::default(), QOpt::default_set().index()),
+        ("Options::elisp()", lexpr::parse::Options::elisp(), QOpt::elisp().index()),
+        ("Options::new()", lexpr::parse::Options::new(), none.index()),
+    ];
+    for (name, opts, qi) in ctors {
+        let got: Result<MV, String> = match catch(|| lexpr::from_str_custom(&input, opts)) {
+            Err(pm) => Err(format!("panic: {}", pm)),
+            Ok(Ok(v)) => Ok(MV::from_value(&v)),
+            Ok(Err(e)) => Err(e.to_string()),
+        };
+        if let Some(Some(want)) = by_index.get(qi) {
+            if *want != got {
+                out.push(Err(Failure::new(
+                    format!("C08 constructor={} class={}", name, cls.trim_start_matches("tok:")),
+                    format!("{:?} gives {} under {} but {} under the documented equivalent built field by field (#{})", input, short(&got), name, short(want), qi),
+                    json!({"case": c, "q": qi}),
+                )));
+            }
+        }
+    }
+    if c.position == 0 {
+        // and the plain entry points use the default set
+        let got: Result<MV, String> = match catch(|| lexpr::from_str(&input)) {
+            Err(pm) => Err(format!("panic: {}", pm)),
+            Ok(Ok(v)) => Ok(MV::from_value(&v)),
+            Ok(Err(e)) => Err(e.to_string()),
+        };
+        if let Some(Some(want)) = by_index.get(QOpt::default_set().index()) {
+            if *want != got {
+                out.push(Err(Failure::new(
+                    format!("C08 constructor=from_str class={}", cls.trim_start_matches("tok:")),
+                    format!("{:?} gives {} through from_str but {} under the default option set", input, short(&got), short(want)),
+                    json!({"case": c, "q": 0}),
+                )));
+            }
+        }
+    }
     out
 }
 
@@ -473,6 +526,8 @@ pub const CORPUS: &[&str] = &[
     "#%a", "#%app", "#%",
     // numbers and near misses
     "7", "12", "1.5", "1e3", "1.5e-3", "007", "1e21", "18446744073709551615", "1+", "1-", "1/2", "1.5.6", "0x10", "12ab", "1e", "1e+", "9x", "1.", "3rd", "1_000",
+    "#b11111111111111111111111111111111111111111111111111111111111111111111112", "#o7777777777777777777777777777778", "#xffffffffffffffffffffg",
+    "#x10", "#xFf", "#x-ff", "#b101", "#o17", "#d10", "#b2", "#b102", "#b12", "#o8", "#o18", "#o79", "#xg", "#x1g", "#xfg", "#d1a", "#da", "#b", "#x-", "#b1.0", "#o1e2",
     "+5", "-5", "+1.5", "-0", "+", "-", "+a", "-a", "--", "->x", "...", ".a", "..", "-1+", "+1x", "-1a", "+5.", ".5", "-.5", "+.5",
     // strings
     "\"a\\x41;b\"", "\"a\\101b\"", "\"plain\"", "\"a\\u00e9\"",
